@@ -110,6 +110,9 @@ func (e *Env) GoEnv(extra ...string) []string {
 	if v := os.Getenv("GOPATH"); v != "" {
 		env = append(env, "GOPATH="+v)
 	}
+	if d := os.Getenv("VERIF_COVER_ALL"); d != "" {
+		env = append(env, "GOCOVERDIR="+d)
+	}
 	return append(env, extra...)
 }
 
@@ -135,6 +138,10 @@ func (e *Env) BuildCLI(variant string) (string, error) {
 	}
 	out := filepath.Join(bdir, "goverter-"+variant)
 	args := []string{"build", "-modfile=" + modfile, "-o", out}
+	if os.Getenv("VERIF_COVER_ALL") != "" && variant == "plain" {
+		// development aid: every CLI run of every check feeds one coverage directory
+		args = append(args, "-cover", "-coverpkg=github.com/jmattheis/goverter/...")
+	}
 	switch variant {
 	case "race":
 		args = append(args, "-race")
